@@ -271,6 +271,7 @@ def drive_law(law: Law, tier: str, seed: int, shard_idx: int, n_examples: int) -
     lseed0 = (zlib.crc32(law.name.encode()) ^ (seed * 2654435761)) & 0xFFFFFFFF
     lseed = (lseed0 ^ (shard_idx * 40503)) & 0xFFFFFFFF
     if law.drive is not None:
+        _CUR["shard"] = shard_idx
         out = law.drive(tier, lseed, n_examples)
         res.update(out)
         res["law"] = law.name
